@@ -17,8 +17,8 @@ import (
 func init() {
 	register(&World{
 		Name: "C10", Prop: "C10", Run: runC10, MaxSteps: 20000,
-		Real:  []string{"h2.Config.Proxy (dial, both relay directions, join)", "h2 relay reader/writer shutdown handshake, output queues, flow-control locks"},
-		Stub:  append([]string{"scripted HTTP/2 endpoints", "upstream dial (seam R1)", "write faults, garbage frames, stalls on the simulated connections"}, commonStub...),
+		Real: []string{"h2.Config.Proxy (dial, both relay directions, join)", "h2 relay reader/writer shutdown handshake, output queues, flow-control locks"},
+		Stub: append([]string{"scripted HTTP/2 endpoints", "upstream dial (seam R1)", "write faults, garbage frames, stalls on the simulated connections"}, commonStub...),
 	})
 }
 
